@@ -124,6 +124,21 @@ func (h *hexEval) eval(v ssa.Value, lo, hi int64, env map[*ssa.Phi]ssa.Value, de
 		}
 		a, b := l.slope*lo+l.offset, l.slope*hi+l.offset
 		if a < tl || b > th || a > th || b < tl {
+			// Go's integer arithmetic wraps: when every value of the interval is shifted by the same multiple of the type's
+			// modulus the linear form survives with its offset reduced; only an interval that straddles the boundary cannot
+			// be expressed
+			mod := th - tl + 1
+			fl := func(x int64) int64 {
+				q := (x - tl) / mod
+				if (x-tl)%mod < 0 {
+					q--
+				}
+				return q
+			}
+			if mod > 0 && fl(a) == fl(b) {
+				l.offset -= fl(a) * mod
+				return l
+			}
 			h.why = "a value leaves the range of its type (wrap-around) on part of the digits"
 			return linval{}
 		}
@@ -288,6 +303,12 @@ func (h *hexEval) results(f *ssa.Function, lo, hi int64, out *[][3]int64) bool {
 				return false
 			}
 			r := h.eval(t.Results[0], lo, hi, ne, 0)
+			if !r.known && lo < hi {
+				// not expressible on the whole interval (an intermediate value wraps on part of it): decide the halves
+				h.why = ""
+				mid := (lo + hi) / 2
+				return walk(b, from, env, lo, mid, depth+1) && walk(b, from, env, mid+1, hi, depth+1)
+			}
 			if !r.known || r.isBool {
 				if h.why == "" {
 					h.why = "a result is not of the form c + constant"
